@@ -385,7 +385,7 @@ func vectorCase(ctx *Ctx, file string, idx int, n *xnode, origin string) bool {
 func init() {
 	register(&Engine{
 		Name: "vectors",
-		Rule: "every RequestMessage/ResponseMessage element of the OASIS conformance vector files under /repo/kmiptest/testdata (v1.0..v1.4), read by an independent XML reader; optional-element variations directed by a specification order pinned in the harness (Key Block, Key Wrapping Data / Specification, Encryption / MAC Signature Key Information, Cryptographic Parameters, headers: every single optional element, pairs, all, added or removed at the specification position, on every distinct occurrence); optional elements removed / added as the vectors themselves show them; value variations of every scalar type (text incl. markup and non-ASCII, integers, long and big integers, enumerations by other names / in hexadecimal / unregistered, masks, byte strings, dates incl. zone forms, intervals); decoded by the library, re-encoded to XML and to binary, and compared tree-for-tree with the (varied) vector, names of enumeration values and mask bits compared as text; floors on the number of vectors judged and on every variation class; distinct = distinct message; nontrivial = all",
+		Rule: "every RequestMessage/ResponseMessage element of the OASIS conformance vector files under /repo/kmiptest/testdata (v1.0..v1.4), read by an independent XML reader; optional-element variations directed by a specification order pinned in the harness (Key Block, Key Wrapping Data / Specification, Encryption / MAC Signature Key Information, Cryptographic Parameters, headers: every single optional element, pairs, all, added or removed at the specification position, on every distinct occurrence); optional elements removed / added as the vectors themselves show them; value variations of every scalar type (text incl. markup and non-ASCII, integers, long and big integers, enumerations by other names / in hexadecimal / unregistered, masks, byte strings, dates incl. zone forms, intervals); every number of a vector respelled in another legal lexical form (leading zeros, explicit +, white space, hexadecimal, other case of hexBinary digits; oracle vector-lexical-form: binary TTLV byte-identical to that of the vector as shipped, or rejection - a violation too for forms of the xsd lexical space -, never another value); decoded by the library, re-encoded to XML and to binary, and compared tree-for-tree with the (varied) vector, names of enumeration values and mask bits compared as text; floors on the number of vectors judged and on every variation class; distinct = distinct message; nontrivial = all",
 		Run:  runVectors,
 	})
 }
@@ -398,6 +398,17 @@ func runVectors(ctx *Ctx) {
 	defer func() { time.Local = savedLocal }()
 	if len(ctx.Replay) > 0 {
 		for _, l := range ctx.Replay {
+			if g := strings.Split(l, " "); len(g) == 7 && g[0] == "#vectorform" {
+				b0, err0 := hex.DecodeString(g[5])
+				b1, err1 := hex.DecodeString(g[6])
+				n0, err2 := parseXMLNodes(b0)
+				n1, err3 := parseXMLNodes(b1)
+				if err0 == nil && err1 == nil && err2 == nil && err3 == nil && len(n0) == 1 && len(n1) == 1 {
+					idx, _ := strconv.Atoi(g[2])
+					vectorFormCase(ctx, g[1], idx, n0[0], n1[0], g[3], g[4] == "must")
+				}
+				continue
+			}
 			f := strings.SplitN(l, " ", 5)
 			if len(f) != 5 || f[0] != "#vector" {
 				continue
@@ -555,6 +566,35 @@ func runVectors(ctx *Ctx) {
 				vecAt(v, loc.path).Attrs["value"] = txt
 				vectorCase(ctx, vm.rel, vm.idx, v, "var.value.BigInteger")
 			}
+		}
+	}
+	// pass 5: the numbers of a vector respelled in other legal lexical forms (leading zeros, explicit sign, case of
+	// hexadecimal digits, white space): byte-identical binary TTLV or rejection, never another value
+	stride := 2
+	if ctx.Thor {
+		stride = 1
+	}
+	formSeen := map[string]bool{}
+	for i, vm := range msgs {
+		for j, f := range vecForms {
+			if (i+j)%stride != 0 {
+				continue
+			}
+			v := vecApplyForm(vm.n, f)
+			if v == nil {
+				continue
+			}
+			k := v.String()
+			if formSeen[k] {
+				continue
+			}
+			formSeen[k] = true
+			vectorFormCase(ctx, vm.rel, vm.idx, vm.n, v, f.name, f.must)
+		}
+	}
+	for _, k := range []string{"vector.form.must.ok", "vector.form:dec-zero1.ok", "vector.form:dec-plus.ok", "vector.form:hexbin-other-case.ok"} {
+		if d[k] < 100 {
+			ctx.Res.Fail(fmt.Sprintf("vectors: only %d cases of class %s (floor 100)", d[k], k))
 		}
 	}
 	for _, k := range []string{"vector.spec.ok", "vector.var.remove.ok", "vector.var.add.ok", "vector.var.value.Enumeration.ok", "vector.var.value.BigInteger.ok", "vector.var.value.TextString.ok", "vector.var.value.Integer.ok", "vector.var.value.DateTime.ok"} {
